@@ -1,5 +1,5 @@
 (* C17 - verdicts do not depend on the order of SAN entries or of extensions.  Statements only (proofs: Kernels/Order.v). *)
-From ZL Require Import Base.Bytes Kernels.Order Kernels.Names Kernels.NamesFacts Kernels.GeneralNames Kernels.GeneralNamesFacts Kernels.CnSan.
+From ZL Require Import Base.Bytes Kernels.Order Kernels.Names Kernels.NamesFacts Kernels.GeneralNames Kernels.GeneralNamesFacts Kernels.CnSan Kernels.SubjLen.
 From Coq Require Import Sorting.Permutation ZArith List.
 Open Scope Z_scope.
 
@@ -63,6 +63,16 @@ Theorem c17_cn_exact_spec : forall v, cv_cns v <> [] -> cv_is_ca v = false ->
   (fst (l_cn_exact v) = 3 <-> forall cn, In cn (cv_cns v) -> In cn (cv_dns v) \/ In cn (cv_ips v)).
 Proof. exact l_cn_exact_spec. Qed.
 
+(* the thirteen subject-attribute length lints (Kernels/SubjLen.v): the values of a repeated attribute in any order *)
+Theorem c17_subject_length_lints_perm : forall sev limit vals vals',
+  Permutation vals vals' -> max_len_lint sev limit vals = max_len_lint sev limit vals'.
+Proof. exact max_len_lint_perm. Qed.
+
+(* ... and what they decide: the finding exactly when some value has more characters than the limit *)
+Theorem c17_subject_length_spec : forall sev limit vals, vals <> [] -> sev <> 3 ->
+  (max_len_lint sev limit vals = sev <-> exists v, In v vals /\ limit < rune_count v).
+Proof. exact max_len_lint_spec. Qed.
+
 Print Assumptions c17_first_offender_perm.
 Print Assumptions c17_label_lints_perm.
 Print Assumptions c17_na_first_refuted.
@@ -81,3 +91,5 @@ Print Assumptions c17_gn_lints_perm.
 Print Assumptions c17_raw_lints_perm.
 Print Assumptions c17_cn_san_lints_perm.
 Print Assumptions c17_cn_exact_spec.
+Print Assumptions c17_subject_length_lints_perm.
+Print Assumptions c17_subject_length_spec.
